@@ -270,5 +270,27 @@ def run(tier):
         ck.finding("R4.prepare-disposes", "R4.prepare-disposes/prepare", F.short_span(pr.span),
                    "prepare() overwrites active_vm / active_saved_env of a run the host stopped stepping without restoring its environment: the abandoned "
                    "program's scope stays installed")
+    # R3b: once step() has rebuilt or stepped a VM, every error it returns goes through the disposal of the run
+    ck.rule("R3b.step-error-exits", "step(): every Err exit that lies behind the reconstruction (from_saved_state) or the stepping of a VM passes abort/finalize", floor=2)
+    closers3 = [t[4] for bi, t in st.calls() if (t[1].get("d") or "").endswith(("Interpreter::abort_active_execution", "Interpreter::finalize_active_execution"))
+                and t[4] is not None and t[4] >= 0]
+    live = [bi for bi, t in st.calls() if (t[1].get("d") or "").endswith(("BytecodeVM::from_saved_state", "BytecodeVM::step"))]
+    ck.anchor(bool(live), "step() rebuilds / steps a VM")
+    for bi, bl in enumerate(st.blocks):
+        if bl["c"]:
+            continue
+        for s in bl["s"]:
+            if s[0] == "a" and s[1][0] == 0 and not s[1][1] and s[2][0] == "agg" and isinstance(s[2][1], dict) and s[2][1].get("v") == "Err":
+                if not any(st.dominates(l, bi) for l in live):
+                    continue
+                ok = any(st.dominates(c3, bi) for c3 in closers3)
+                if not ok:
+                    # the error of process_vm_result mapped through a closure that disposes of the run (`map_err(|e| { abort(); e })?`)
+                    pass
+                ck.instance("R3b.step-error-exits", "step: Err exit", F.short_span(s[3]), ok=ok)
+                if not ok:
+                    ck.finding("R3b.step-error-exits", "R3b.step-error-exits/step", F.short_span(s[3]),
+                               "step() returns an error for a run it had already resumed without disposing of the run (abort_active_execution): the dead run's saved "
+                               "environment, call stack and scope guards stay installed - call_depth() stays above 0 and the next program runs inside its scopes")
     ck.assume("the host does not call prepare() while another run is suspended on an order it still intends to resume")
     return ck.finish()
